@@ -95,7 +95,7 @@ func (c *VC) loadAt(st *State, addr *Term, t types.Type) *Term {
 		}
 		return arr
 	}
-	_, h := c.ptrHeap(st, c.sortOf(t))
+	_, h := c.ptrHeap(st, t)
 	return c.sel(h, addr)
 }
 
@@ -120,7 +120,7 @@ func (c *VC) storeAt(st *State, addr *Term, t types.Type, v *Term, pos token.Pos
 		}
 		return
 	}
-	hn, h := c.ptrHeap(st, v.Sort)
+	hn, h := c.ptrHeap(st, t)
 	c.checkWrite(st, hn, addr, nil, nil, pos, text)
 	nh := mkStore(h, addr, v)
 	if nh.size() > 40 {
@@ -144,8 +144,7 @@ func (c *VC) leafHeaps(t types.Type, out map[string]*Sort, depth int) {
 		c.leafHeaps(u.Elem(), out, depth+1)
 		return
 	}
-	s := c.sortOf(t)
-	out[c.ptrHeapName(s)] = s
+	out[c.ptrHeapNameT(t)] = c.sortOf(t)
 }
 
 // allocObj allocates a fresh object of type t holding v and returns its address.
